@@ -96,6 +96,7 @@ def conc_scenarios():
         sc.append("bqueue")
     if _opt("execgen_set", "set_cmd"):
         sc.append("set")
+        sc.append("storeacc")
     sc.append("bigread")
     sc += ["addrem", "keysstable", "streamtrim", "bpoptime"]
     return sc
